@@ -735,6 +735,18 @@ def install_methods(it):
         default = args[2] if len(args) > 2 else None
         return it.dict_get(d, k, default)
 
+    @M('dict', 'setdefault')
+    def dict_setdefault(it, args, kw):
+        # d.setdefault(k, v): the stored value when k is present, else store v and return it
+        d, k = args[0], args[1]
+        default = args[2] if len(args) > 2 else None
+        from .dicts import lookup
+        found, v = lookup(it, d, k)      # branches over the entries that may match
+        if found:
+            return v
+        it.dict_set(d, k, default)
+        return default
+
     @M('dict', 'update')
     def dict_update(it, args, kw):
         d = args[0]
@@ -1233,6 +1245,8 @@ def install_modules(it):
     # ---- pydicom.uid (UID is the identity on str; audited)
     def UID(it, args, kw):
         v = args[0]
+        if isinstance(v, Opaque):
+            return v      # an unknown value is passed on, not turned into an exception the real code may never raise
         if not is_strlike(v):
             it.raise_exc('TypeError', 'A UID must be created from a string')
         return v
